@@ -58,6 +58,8 @@ NET_EFFECT = {"generate_signature": 1}
 
 
 def run(repo: Repo, rep: Report, tier: str) -> None:
+    from sa.report import guarded as _guarded
+
     live = repo.import_closure(["generator.client_generator"])
     mods = [m for m in live if m.startswith(EMIT_MODULES)]
     # ---------------------------------------------------------------- R1.1
@@ -79,20 +81,20 @@ def run(repo: Repo, rep: Report, tier: str) -> None:
             n5 += c05._import_obligations(fn, _Relabel(rep, "R1.1"))
     rep.count("R1.1:handler_emit_sites", n5)
 
-    rule_completion_spares_core(repo, rep, "R1.11")
-    rule_required_first(repo, rep, "R1.13")
-    rule_no_default_before_star(repo, rep, "R1.16")
-    rule_no_value_return_in_stream(repo, rep, "R1.14")
-    rule_named_stub_has_module(repo, rep, "R1.17")
-    rule_cyclic_model_imports(repo, rep, "R1.19")
-    rule_fields_do_not_shadow_imports(repo, rep, "R1.21")
-    rule_import_registration_not_memoised(repo, rep, "R1.22")
+    _guarded(rep, rule_completion_spares_core, repo, rep, "R1.11")
+    _guarded(rep, rule_required_first, repo, rep, "R1.13")
+    _guarded(rep, rule_no_default_before_star, repo, rep, "R1.16")
+    _guarded(rep, rule_no_value_return_in_stream, repo, rep, "R1.14")
+    _guarded(rep, rule_named_stub_has_module, repo, rep, "R1.17")
+    _guarded(rep, rule_cyclic_model_imports, repo, rep, "R1.19")
+    _guarded(rep, rule_fields_do_not_shadow_imports, repo, rep, "R1.21")
+    _guarded(rep, rule_import_registration_not_memoised, repo, rep, "R1.22")
     from rules.c20 import rule_models_spare_endpoint_names
 
-    rule_models_spare_endpoint_names(repo, rep, "R1.24")
+    _guarded(rep, rule_models_spare_endpoint_names, repo, rep, "R1.24")
     from rules.c12 import rule_import_time_imports
 
-    rule_import_time_imports(repo, rep, "R1.18")
+    _guarded(rep, rule_import_time_imports, repo, rep, "R1.18")
     # R1.12: nothing that ends a source line survives into a `# comment` built from spec text (instances of R15.1 in COMMENT position)
     from rules._reuse import reuse as _reuse112
 
